@@ -358,7 +358,7 @@ func rulesC06(w *World, r *Report) {
 	chk("ArchiveInfo.pointOffsetAt", "(p0."+offF+" +:uint32 (p1 *:uint32 12))", false)
 	chk("ArchiveInfo.pointIndex", "whispertool.floorMod((whispertool.Timestamp.Sub(p2, p1) /:int64 p0."+stepF+"), p0."+ptsF+")", false)
 	chk("ArchiveInfo.intervalForWrite", "(p1 -:int64 whispertool.floorMod(p1, p0."+stepF+"))", false)
-	chk("ArchiveInfo.interval", `^(\(\(p1 -:int64 whispertool\.floorMod\(p1, p0\.`+stepF+`\)\) \+:int64 p0\.`+stepF+`\)|whispertool\.Timestamp\.Add\(whispertool\.ArchiveInfo\.intervalForWrite\(p0, p1\), p0\.`+stepF+`\))$`, true)
+	chk("ArchiveInfo.interval", `^(\(\(p1 -:int64 whispertool\.floorMod\(p1, p0\.`+stepF+`\)\) \+:int64 p0\.`+stepF+`\)|whispertool\.Timestamp\.Add\(whispertool\.ArchiveInfo\.intervalForWrite\(p0, p1\), p0\.`+stepF+`\)|\(whispertool\.ArchiveInfo\.intervalForWrite\(p0, p1\) \+:uint32 p0\.`+stepF+`\)|\(p0\.`+stepF+` \+:uint32 whispertool\.ArchiveInfo\.intervalForWrite\(p0, p1\)\))$`, true)
 	if fm := need(w, r, "C06.R6", w.Lib, "floorMod"); fm != nil {
 		// floored modulo: returns x%y, or x%y+y when the remainder is non-zero and signs differ
 		var rs []string
